@@ -59,14 +59,15 @@ class ReportLuns(SCSICommand):
         _data = data[8 : scsi_ba_to_int(data[:4]) + 8]
         _luns = []
         _count = 0
-        while len(_data):
+        # walk through the list by position: cutting the decoded entry off the
+        # front copies the rest of the list once for every entry
+        for _pos in range(0, len(_data), 8):
             #  maybe we drop the whole "put a dict into the list for every lun" thing at all
             _r = {}
-            decode_bits(_data[:8], cls._datain_bits, _r)
+            decode_bits(_data[_pos : _pos + 8], cls._datain_bits, _r)
             key = "lun%s" % _count
             _r[key] = _r.pop("lun")
             _luns.append(_r)
-            _data = _data[8:]
             _count += 1
 
         result.update({"luns": _luns})
